@@ -39,7 +39,11 @@ FINITE_ITERATORS = (
     "<std::str::Split<'a, P> as std::iter::Iterator>::next", "<std::str::Chars<'a> as std::iter::Iterator>::next", "<std::slice::Iter<'a, T> as std::iter::Iterator>::next",
     "<std::slice::IterMut<'a, T> as std::iter::Iterator>::next", "<std::vec::IntoIter<T, A> as std::iter::Iterator>::next", "<std::collections::hash_map::Iter<'a, K, V> as std::iter::Iterator>::next",
     "<std::str::RSplit<'a, P> as std::iter::Iterator>::next", "<std::str::CharIndices<'a> as std::iter::Iterator>::next", "<std::str::Bytes<'_> as std::iter::Iterator>::next",
-    "<std::collections::hash_map::IntoIter<K, V> as std::iter::Iterator>::next",
+    "<std::collections::hash_map::IntoIter<K, V> as std::iter::Iterator>::next", "<std::collections::hash_map::IntoIter<K, V, A> as std::iter::Iterator>::next",
+    "<std::collections::hash_map::Keys<'a, K, V> as std::iter::Iterator>::next", "<std::collections::hash_map::Values<'a, K, V> as std::iter::Iterator>::next",
+    "<std::collections::hash_map::IterMut<'a, K, V> as std::iter::Iterator>::next", "<std::str::SplitN<'a, P> as std::iter::Iterator>::next", "<std::str::RSplitN<'a, P> as std::iter::Iterator>::next",
+    "<std::vec::Drain<'_, T, A> as std::iter::Iterator>::next", "<std::ops::Range<A> as std::iter::Iterator>::next", "<std::str::Lines<'a> as std::iter::Iterator>::next",
+    "<std::str::SplitWhitespace<'a> as std::iter::Iterator>::next", "<std::str::CharIndices<'a> as std::iter::Iterator>::next",
 )
 
 ADAPTORS = ("std::iter::Enumerate", "std::iter::Rev", "std::iter::Peekable", "std::iter::Skip", "std::iter::Take", "std::iter::Map", "std::iter::Filter", "std::iter::Zip", "std::iter::Chain", "std::iter::Copied", "std::iter::Cloned", "std::iter::FilterMap", "std::iter::TakeWhile", "std::iter::SkipWhile", "std::iter::StepBy", "std::iter::Fuse", "std::iter::Inspect")
@@ -223,7 +227,7 @@ def justify(facts, s):
         if a[0] == "call" and a[1] == "std::cmp::PartialOrd::partial_cmp":
             return None, "unresolved partial_cmp"
         return None, "unwrap of %s" % nshow(a)[:100]
-    if item in ("index", "index_mut", "remove") and "Vec" in p:
+    if item in ("index", "index_mut", "remove", "swap_remove") and "Vec" in p:
         idx = args[1]
         fs = from_search(facts, idx)
         # closure parameter of Option::map(get_index(..), closure): arg2 of the closure
@@ -386,6 +390,8 @@ def rule_controls(ctx):
         controls.control_panic(ctx)
         controls.control_loop(ctx)
 
+
+THOROUGH_FS = []
 
 RULES = [
     ("CONTROL", rule_controls, 0),
